@@ -534,14 +534,14 @@ class StmtMixin(object):
         if it.kind == "dictview":
             what, d = it.py
             r = self.as_ref(d)
-            kz = self.heap_array(st, "$keys")[r]
-            st.assume(u.is_R(kz))
-            keys = SV(kz, "ref", cls="list")
+            keys = SV(d.z, "ref", cls="dictkeys")
             n = self.seq_len(st, keys)
             st.assume(n >= 0)
+            ksnap = self.seq_elems(st, keys)
 
             def at(s, k):
-                key = self.seq_get(s, keys, k)
+                key = SV(ksnap(k))
+                s.assume(z3.Implies(u.is_R(key.z), u.r(key.z) < s.alloc))
                 if what == "keys":
                     return key
                 val = SV(self.heap_array(s, "$val")[r][key.z])
@@ -635,7 +635,7 @@ class StmtMixin(object):
                             allowed = None
                             break
                         allowed.append(self.as_ref(v))
-                for key in ("$len", "$at", "$has", "$val", "$keys"):
+                for key in ("$len", "$at", "$has", "$val", "$dlen", "$klen", "$kat"):
                     old_arr = self.heap_array(h, key)
                     new = u.fresh("L" + key.replace("$", "_"), old_arr.sort())
                     if allowed is not None:
@@ -909,8 +909,6 @@ class StmtMixin(object):
             elif m.startswith("dict("):
                 v, _ = self.spec_value(m[5:-1], old, env)
                 allowed_dicts.append(u.r(v.z))
-                kz = self.heap_array(old, "$keys")[u.r(v.z)]
-                allowed_lists.append(u.r(kz))
             elif m.startswith("each("):
                 inner, f = m[5:].split(").", 1)
                 seqv, _ = self.spec_value(inner, old, env)
@@ -937,8 +935,8 @@ class StmtMixin(object):
             if key in ("$len", "$at"):
                 if any_lists:
                     continue
-                conds += [r != x for x in allowed_lists + allowed_dicts]
-            elif key in ("$has", "$val", "$keys"):
+                conds += [r != x for x in allowed_lists]
+            elif key in ("$has", "$val", "$dlen", "$klen", "$kat"):
                 if any_dicts:
                     continue
                 conds += [r != x for x in allowed_dicts]
@@ -1068,7 +1066,8 @@ class StmtMixin(object):
         """as_list(x, 'elem type'): view a Val as a list with static element type."""
         st, v = self.eval(node.args[0], st, acc)
         elem = ast.literal_eval(node.args[1]) if len(node.args) > 1 else None
-        return st, SV(v.z, "ref", cls="list", elem=elem)
+        cls = v.cls if v.cls in ("tuple", "dictkeys") else "list"
+        return st, SV(v.z, "ref", cls=cls, elem=elem)
 
     def spec_has_key(self, node, st, acc):
         st, d = self.eval(node.args[0], st, acc)
@@ -1085,7 +1084,7 @@ class StmtMixin(object):
     def spec_uf_keys(self, node, st, acc):
         """the key list (insertion order) of a dict"""
         st, d = self.eval(node.args[0], st, acc)
-        return st, SV(self.heap_array(st, "$keys")[self.u.r(d.z)], "ref", cls="list")
+        return st, SV(d.z, "ref", cls="dictkeys")
 
     def spec_min(self, node, st, acc):
         st, a = self.eval(node.args[0], st, acc)
